@@ -41,7 +41,8 @@ def gen_cases(ctx):
     # many input shards (more columns than any small per-worker buffer) and chunks of several KiB per worker that are
     # not a multiple of 64 bytes: every worker must use its own view of the row and cover exactly its own range
     for rows, nin, words, g in ((2, 65, 96, 2), (3, 70, 520, 4), (2, 257, 64, 8), (3, 300, 40, 3), (2, 129, 2048, 16),
-                                (2, 3, 8192, 3), (1, 2, 50000, 4), (2, 2, 32769, 2), (2, 4, 6152, 3), (2, 2, 4104, 2)):
+                                (2, 3, 8192, 3), (1, 2, 50000, 4), (2, 2, 32769, 2), (2, 4, 6152, 3), (2, 2, 4104, 2),
+                                (2, 2, 50000, 2), (1, 3, 70000, 3), (2, 2, 40000, 5)):       # worker ranges above 32 KiB not starting on a 32 KiB multiple
         for variant in ("data", "out"):
             apply.append((variant, rows, nin, words, g, "c12 apply %s %d %d %d %d %d" % (variant, rows, nin, words, g, rng.randrange(1 << 30))))
     if thorough:
